@@ -6,25 +6,1069 @@ import WhatIs.Spec.Rfc4648
 namespace WhatIs.Lemmas.Base64
 open WhatIs WhatIs.Base64 WhatIs.Spec
 
+/-! ### character-level facts -/
+
+theorem all_range {n : Nat} {p : Nat → Bool} (h : (List.range n).all p = true) :
+    ∀ c, c < n → p c = true := by
+  intro c hc
+  rw [List.all_eq_true] at h
+  exact h c (List.mem_range.mpr hc)
+
+theorem indexOf_none (c : Nat) : ∀ (l : List Nat) (i : Nat), (∀ x ∈ l, x ≠ c) → B64.indexOf c l i = none := by
+  intro l
+  induction l with
+  | nil => intro i _; rfl
+  | cons x xs ih =>
+    intro i h
+    have hx : x ≠ c := h x (by simp)
+    simp only [B64.indexOf, hx, if_false]
+    exact ih (i + 1) (fun y hy => h y (by simp [hy]))
+
+theorem alphabet_lt : ∀ u, ∀ x ∈ B64.alphabet u, x < 128 := by decide
+
+theorem sextet_big (u : Bool) (c : Nat) (h : 128 ≤ c) : B64.sextet u c = none := by
+  unfold B64.sextet
+  apply indexOf_none
+  intro x hx
+  have := alphabet_lt u x hx
+  omega
+
+/-- closed form of `sextet` -/
+def dm (u : Bool) (c : Nat) : Option Nat :=
+  if 65 ≤ c ∧ c ≤ 90 then some (c - 65)
+  else if 97 ≤ c ∧ c ≤ 122 then some (c - 71)
+  else if 48 ≤ c ∧ c ≤ 57 then some (c + 4)
+  else if u then (if c = 45 then some 62 else if c = 95 then some 63 else none)
+  else (if c = 43 then some 62 else if c = 47 then some 63 else none)
+
+theorem dm_small : ∀ u, (List.range 128).all (fun c => dm u c == B64.sextet u c) = true := by decide
+
+theorem sextet_eq (u : Bool) (c : Nat) : B64.sextet u c = dm u c := by
+  by_cases h : c < 128
+  · have := all_range (dm_small u) c h
+    exact (eq_of_beq this).symm
+  · rw [sextet_big u c (by omega)]
+    unfold dm
+    rw [if_neg (by omega), if_neg (by omega), if_neg (by omega)]
+    cases u
+    · simp only [Bool.false_eq_true, if_false]; rw [if_neg (by omega), if_neg (by omega)]
+    · simp only [if_true]; rw [if_neg (by omega), if_neg (by omega)]
+
+theorem decodeMap_eq (e : Enc) (c : Nat) : decodeMap e c = B64.sextet e.isURL c := by
+  rw [sextet_eq]
+  unfold decodeMap dm
+  cases e.isURL <;> simp
+
+/-- closed form of `classOf` -/
+def cls (c : Nat) : Nat :=
+  if c = 10 ∨ c = 13 then 0
+  else if c = 61 then 8
+  else if (65 ≤ c ∧ c ≤ 90) ∨ (97 ≤ c ∧ c ≤ 122) ∨ (48 ≤ c ∧ c ≤ 57) then 1
+  else if c = 43 ∨ c = 47 then 2
+  else if c = 45 ∨ c = 95 then 4
+  else 255
+
+set_option maxRecDepth 100000 in
+theorem table_len : Gen.b64Table.length = 256 := by decide
+
+set_option maxRecDepth 100000 in
+theorem table_small : (List.range 256).all (fun c => tableClass c == B64.classOf c) = true := by decide
+
 theorem table_ok' : ∀ c, tableClass c = B64.classOf c := by
-  sorry
+  intro c
+  by_cases h : c < 256
+  · exact eq_of_beq (all_range table_small c h)
+  · have h1 : tableClass c = 255 := by
+      unfold tableClass
+      rw [List.getD_eq_getElem?_getD, List.getElem?_eq_none (by rw [table_len]; omega)]
+      rfl
+    rw [h1]
+    unfold B64.classOf
+    rw [sextet_big _ c (by omega), sextet_big _ c (by omega)]
+    rw [if_neg (by omega), if_neg (by omega)]
+
+/-! ### facts on `dm` -/
+
+theorem dm_some_ne {u : Bool} {c v : Nat} (h : dm u c = some v) : c ≠ 10 ∧ c ≠ 13 ∧ c ≠ 61 := by
+  refine ⟨?_, ?_, ?_⟩ <;> (intro hc; subst hc; cases u <;> cases h)
+
+theorem sextet_some_ne {u : Bool} {c v : Nat} (h : B64.sextet u c = some v) :
+    c ≠ 10 ∧ c ≠ 13 ∧ c ≠ 61 := by
+  rw [sextet_eq] at h; exact dm_some_ne h
+
+theorem sextet_61 (u : Bool) : B64.sextet u 61 = none := by
+  rw [sextet_eq]; cases u <;> rfl
+
+/-! ### unfolding lemmas for `decodeStripped` -/
+
+theorem dS_bad0 (u p : Bool) (a : Nat) (t : Bytes) (h : B64.sextet u a = none) :
+    B64.decodeStripped u p (a :: t) = none := by
+  match t with
+  | [] => simp [B64.decodeStripped]
+  | [b] => simp [B64.decodeStripped, h]
+  | [b, c] => simp [B64.decodeStripped, h]
+  | b :: c :: d :: r => simp [B64.decodeStripped, h]
+
+theorem dS_bad1 (u p : Bool) (a b : Nat) (t : Bytes) (h : B64.sextet u b = none) :
+    B64.decodeStripped u p (a :: b :: t) = none := by
+  match t with
+  | [] => simp [B64.decodeStripped, h]
+  | [c] => simp [B64.decodeStripped, h]
+  | c :: d :: r => simp [B64.decodeStripped, h]
+
+theorem dS_bad2 (u p : Bool) (a b c : Nat) (t : Bytes) (h : B64.sextet u c = none)
+    (h61 : ¬ (c = 61 ∧ p = true)) :
+    B64.decodeStripped u p (a :: b :: c :: t) = none := by
+  match t with
+  | [] => simp [B64.decodeStripped, h]
+  | d :: r =>
+    simp only [B64.decodeStripped, h]
+    rw [if_neg (by intro hh; exact h61 ⟨hh.2.2.1, hh.1⟩)]
+    split <;> simp
+
+theorem dS_bad3 (u p : Bool) (a b c d : Nat) (t : Bytes) (h : B64.sextet u d = none)
+    (h61 : ¬ (d = 61 ∧ p = true)) :
+    B64.decodeStripped u p (a :: b :: c :: d :: t) = none := by
+  simp only [B64.decodeStripped, h]
+  rw [if_neg (by intro hh; exact h61 ⟨hh.2.2.2, hh.1⟩), if_neg (by intro hh; exact h61 ⟨hh.2.2, hh.1⟩)]
+  simp
+
+theorem dS_full (u p : Bool) (a b c d x y z w : Nat) (t : Bytes)
+    (ha : B64.sextet u a = some x) (hb : B64.sextet u b = some y)
+    (hc : B64.sextet u c = some z) (hd : B64.sextet u d = some w) :
+    B64.decodeStripped u p (a :: b :: c :: d :: t) =
+      (B64.decodeStripped u p t).map (B64.bytes4 x y z w ++ ·) := by
+  have hd61 := (sextet_some_ne hd).2.2
+  simp only [B64.decodeStripped, ha, hb, hc, hd]
+  rw [if_neg (by intro hh; exact hd61 hh.2.2.2), if_neg (by intro hh; exact hd61 hh.2.2)]
+  cases B64.decodeStripped u p t <;> simp
+
+theorem dS_pad2 (u : Bool) (a b : Nat) (t : Bytes) :
+    B64.decodeStripped u true (a :: b :: 61 :: t) =
+      if t = [61] then
+        match B64.sextet u a, B64.sextet u b with
+        | some x, some y => some (B64.bytes2 x y)
+        | _, _ => none
+      else none := by
+  match t with
+  | [] => simp [B64.decodeStripped]
+  | d :: r =>
+    by_cases h : d = 61 ∧ r = []
+    · obtain ⟨rfl, rfl⟩ := h
+      simp only [B64.decodeStripped]
+      cases B64.sextet u a <;> cases B64.sextet u b <;> simp
+    · rw [if_neg (by simpa using h)]
+      simp only [B64.decodeStripped, sextet_61]
+      rw [if_neg (by intro hh; exact h ⟨hh.2.2.2, hh.2.1⟩), if_neg (by intro hh; exact h ⟨hh.2.2, hh.2.1⟩)]
+      split <;> simp_all
+
+theorem dS_pad3 (u : Bool) (a b c : Nat) (t : Bytes) (hc : c ≠ 61) :
+    B64.decodeStripped u true (a :: b :: c :: 61 :: t) =
+      if t = [] then
+        match B64.sextet u a, B64.sextet u b, B64.sextet u c with
+        | some x, some y, some z => some (B64.bytes3 x y z)
+        | _, _, _ => none
+      else none := by
+  by_cases h : t = []
+  · subst h
+    simp only [B64.decodeStripped]
+    rw [if_neg (by intro hh; exact hc hh.2.2.1)]
+    simp only [and_self, if_true]
+    cases B64.sextet u a <;> cases B64.sextet u b <;> cases B64.sextet u c <;> simp
+  · rw [if_neg h]
+    simp only [B64.decodeStripped, sextet_61]
+    rw [if_neg (by intro hh; exact h hh.2.1), if_neg (by intro hh; exact h hh.2.1)]
+    split <;> simp_all
+
+/-! ### `dropNL` vs `strip` -/
+
+theorem strip_cons_nl (c : Nat) (cs : Bytes) (h : isNL c = true) : B64.strip (c :: cs) = B64.strip cs := by
+  unfold isNL at h
+  simp only [B64.strip, List.filter]
+  have : decide (c ≠ 10 ∧ c ≠ 13) = false := by simp at h ⊢; omega
+  rw [this]
+
+theorem strip_cons_nonnl (c : Nat) (cs : Bytes) (h : isNL c = false) :
+    B64.strip (c :: cs) = c :: B64.strip cs := by
+  unfold isNL at h
+  simp only [B64.strip, List.filter]
+  have : decide (c ≠ 10 ∧ c ≠ 13) = true := by simp at h ⊢; omega
+  rw [this]
+
+theorem strip_dropNL_nil : ∀ cs, dropNL cs = [] → B64.strip cs = []
+  | [], _ => rfl
+  | c :: cs, h => by
+    unfold dropNL at h
+    by_cases hc : isNL c = true
+    · rw [if_pos hc] at h
+      rw [strip_cons_nl c cs hc]; exact strip_dropNL_nil cs h
+    · rw [if_neg hc] at h; cases h
+
+theorem strip_dropNL_cons (x : Nat) (r : Bytes) : ∀ cs, dropNL cs = x :: r →
+    isNL x = false ∧ B64.strip cs = x :: B64.strip r
+  | [], h => by cases h
+  | c :: cs, h => by
+    unfold dropNL at h
+    by_cases hc : isNL c = true
+    · rw [if_pos hc] at h
+      rw [strip_cons_nl c cs hc]; exact strip_dropNL_cons x r cs h
+    · rw [if_neg hc] at h
+      injection h with h1 h2
+      subst h1; subst h2
+      have hc' : isNL c = false := by simpa using hc
+      exact ⟨hc', strip_cons_nonnl c cs hc'⟩
+
+theorem dropNL_isEmpty (r : Bytes) : (dropNL r).isEmpty = true ↔ B64.strip r = [] := by
+  constructor
+  · intro h
+    apply strip_dropNL_nil
+    simpa using h
+  · intro h
+    match hd : dropNL r with
+    | [] => rfl
+    | x :: r' =>
+      have := (strip_dropNL_cons x r' r hd).2
+      rw [h] at this; cases this
+
+/-! ### step lemmas for `goDecodeAux` -/
+
+theorem isNL_iff (c : Nat) : isNL c = true ↔ (c = 10 ∨ c = 13) := by
+  unfold isNL; simp
+
+theorem decodeMap_nl (e : Enc) (c : Nat) (h : isNL c = true) : decodeMap e c = none := by
+  rw [decodeMap_eq]
+  cases hs : B64.sextet e.isURL c with
+  | none => rfl
+  | some v =>
+    have := sextet_some_ne hs
+    rw [isNL_iff] at h
+    omega
+
+theorem G_nl (e : Enc) (c : Nat) (cs : Bytes) (acc : List Nat) (out : Bytes) (h : isNL c = true) :
+    goDecodeAux e (c :: cs) acc out = goDecodeAux e cs acc out := by
+  simp only [goDecodeAux, decodeMap_nl e c h, h, if_true]
+
+theorem G_some (e : Enc) (c v : Nat) (cs : Bytes) (acc : List Nat) (out : Bytes)
+    (h : decodeMap e c = some v) :
+    goDecodeAux e (c :: cs) acc out =
+      if acc.length = 3 then goDecodeAux e cs [] (out ++ emit (acc ++ [v]))
+      else goDecodeAux e cs (acc ++ [v]) out := by
+  simp only [goDecodeAux, h]
+
+theorem G_bad (e : Enc) (c : Nat) (cs : Bytes) (acc : List Nat) (out : Bytes)
+    (h : decodeMap e c = none) (hnl : isNL c = false) (h61 : ¬ (c = 61 ∧ e.padded = true)) :
+    goDecodeAux e (c :: cs) acc out = none := by
+  simp only [goDecodeAux, h, hnl, if_neg h61]
+  simp
+
+theorem dm61 (e : Enc) : decodeMap e 61 = none := by rw [decodeMap_eq]; exact sextet_61 _
+
+theorem G_pad0 (e : Enc) (cs : Bytes) (out : Bytes) (hp : e.padded = true) :
+    goDecodeAux e (61 :: cs) [] out = none := by
+  have hnl : isNL 61 = false := by decide
+  simp [goDecodeAux, dm61, hnl, hp]
+
+theorem G_pad1 (e : Enc) (cs : Bytes) (x : Nat) (out : Bytes) (hp : e.padded = true) :
+    goDecodeAux e (61 :: cs) [x] out = none := by
+  have hnl : isNL 61 = false := by decide
+  simp [goDecodeAux, dm61, hnl, hp]
+
+theorem G_pad3 (e : Enc) (cs : Bytes) (x y z : Nat) (out : Bytes) (hp : e.padded = true) :
+    goDecodeAux e (61 :: cs) [x, y, z] out =
+      if (dropNL cs).isEmpty then some (out ++ emit [x, y, z]) else none := by
+  have hnl : isNL 61 = false := by decide
+  simp [goDecodeAux, dm61, hnl, hp]
+
+theorem G_pad2_nil (e : Enc) (cs : Bytes) (x y : Nat) (out : Bytes) (hp : e.padded = true)
+    (hd : dropNL cs = []) :
+    goDecodeAux e (61 :: cs) [x, y] out = none := by
+  have hnl : isNL 61 = false := by decide
+  simp [goDecodeAux, dm61, hnl, hp, hd]
+
+theorem G_pad2_61 (e : Enc) (cs r : Bytes) (x y : Nat) (out : Bytes) (hp : e.padded = true)
+    (hd : dropNL cs = 61 :: r) :
+    goDecodeAux e (61 :: cs) [x, y] out =
+      if (dropNL r).isEmpty then some (out ++ emit [x, y]) else none := by
+  have hnl : isNL 61 = false := by decide
+  simp [goDecodeAux, dm61, hnl, hp, hd]
+
+theorem G_pad2_other (e : Enc) (cs r : Bytes) (x y d : Nat) (out : Bytes) (hp : e.padded = true)
+    (hd : dropNL cs = d :: r) (hne : d ≠ 61) :
+    goDecodeAux e (61 :: cs) [x, y] out = none := by
+  have hnl : isNL 61 = false := by decide
+  simp [goDecodeAux, dm61, hnl, hp, hd, hne]
+
+/-! ### simulation: `goDecodeAux` vs `decodeStripped` -/
+
+/-- the simulation invariant, for each of the four possible accumulator sizes -/
+def Sim (e : Enc) (s : Bytes) : Prop :=
+  (∀ out, goDecodeAux e s [] out =
+      (B64.decodeStripped e.isURL e.padded (B64.strip s)).map (out ++ ·)) ∧
+  (∀ out a x, B64.sextet e.isURL a = some x →
+      goDecodeAux e s [x] out =
+        (B64.decodeStripped e.isURL e.padded (a :: B64.strip s)).map (out ++ ·)) ∧
+  (∀ out a x b y, B64.sextet e.isURL a = some x → B64.sextet e.isURL b = some y →
+      goDecodeAux e s [x, y] out =
+        (B64.decodeStripped e.isURL e.padded (a :: b :: B64.strip s)).map (out ++ ·)) ∧
+  (∀ out a x b y c z, B64.sextet e.isURL a = some x → B64.sextet e.isURL b = some y →
+      B64.sextet e.isURL c = some z →
+      goDecodeAux e s [x, y, z] out =
+        (B64.decodeStripped e.isURL e.padded (a :: b :: c :: B64.strip s)).map (out ++ ·))
+
+theorem sim_nil (e : Enc) : Sim e [] := by
+  refine ⟨?_, ?_, ?_, ?_⟩
+  · intro out; simp [goDecodeAux, B64.decodeStripped, B64.strip]
+  · intro out a x _; simp [goDecodeAux, B64.decodeStripped, B64.strip]
+  · intro out a x b y ha hb
+    cases hp : e.padded <;> simp [goDecodeAux, B64.decodeStripped, B64.strip, ha, hb, hp, emit, B64.bytes2]
+  · intro out a x b y c z ha hb hc
+    cases hp : e.padded <;>
+      simp [goDecodeAux, B64.decodeStripped, B64.strip, ha, hb, hc, hp, emit, B64.bytes3]
+
+theorem sim_cons_nl (e : Enc) (c : Nat) (cs : Bytes) (ih : Sim e cs) (h : isNL c = true) :
+    Sim e (c :: cs) := by
+  obtain ⟨ih0, ih1, ih2, ih3⟩ := ih
+  refine ⟨?_, ?_, ?_, ?_⟩
+  · intro out; rw [G_nl _ _ _ _ _ h, strip_cons_nl _ _ h]; exact ih0 out
+  · intro out a x ha; rw [G_nl _ _ _ _ _ h, strip_cons_nl _ _ h]; exact ih1 out a x ha
+  · intro out a x b y ha hb; rw [G_nl _ _ _ _ _ h, strip_cons_nl _ _ h]; exact ih2 out a x b y ha hb
+  · intro out a x b y c z ha hb hc
+    rw [G_nl _ _ _ _ _ h, strip_cons_nl _ _ h]; exact ih3 out a x b y c z ha hb hc
+
+theorem sim_cons_some (e : Enc) (c v : Nat) (cs : Bytes) (ih : Sim e cs)
+    (hv : B64.sextet e.isURL c = some v) : Sim e (c :: cs) := by
+  obtain ⟨ih0, ih1, ih2, ih3⟩ := ih
+  have hne := sextet_some_ne hv
+  have hnl : isNL c = false := by
+    cases h : isNL c with
+    | false => rfl
+    | true => rw [isNL_iff] at h; omega
+  have hdm : decodeMap e c = some v := by rw [decodeMap_eq]; exact hv
+  rw [Sim, strip_cons_nonnl _ _ hnl]
+  refine ⟨?_, ?_, ?_, ?_⟩
+  · intro out; rw [G_some _ _ _ _ _ _ hdm]; exact ih1 out c v hv
+  · intro out a x ha; rw [G_some _ _ _ _ _ _ hdm]; exact ih2 out a x c v ha hv
+  · intro out a x b y ha hb; rw [G_some _ _ _ _ _ _ hdm]; exact ih3 out a x b y c v ha hb hv
+  · intro out a x b y c' z ha hb hc
+    rw [G_some _ _ _ _ _ _ hdm, dS_full _ _ _ _ _ _ _ _ _ _ _ ha hb hc hv]
+    simp only [List.length_cons, List.length_nil, if_true]
+    rw [ih0]
+    cases B64.decodeStripped e.isURL e.padded (B64.strip cs) <;>
+      simp [emit, B64.bytes4, List.append_assoc]
+
+theorem sim_cons_bad (e : Enc) (c : Nat) (cs : Bytes)
+    (hv : B64.sextet e.isURL c = none) (hnl : isNL c = false)
+    (h61 : ¬ (c = 61 ∧ e.padded = true)) : Sim e (c :: cs) := by
+  have hdm : decodeMap e c = none := by rw [decodeMap_eq]; exact hv
+  rw [Sim, strip_cons_nonnl _ _ hnl]
+  refine ⟨?_, ?_, ?_, ?_⟩
+  · intro out; rw [G_bad _ _ _ _ _ hdm hnl h61, dS_bad0 _ _ _ _ hv]; rfl
+  · intro out a x _; rw [G_bad _ _ _ _ _ hdm hnl h61, dS_bad1 _ _ _ _ _ hv]; rfl
+  · intro out a x b y _ _; rw [G_bad _ _ _ _ _ hdm hnl h61, dS_bad2 _ _ _ _ _ _ hv h61]; rfl
+  · intro out a x b y c' z _ _ _
+    rw [G_bad _ _ _ _ _ hdm hnl h61, dS_bad3 _ _ _ _ _ _ _ hv h61]; rfl
+
+theorem sim_cons_pad (e : Enc) (cs : Bytes) (hp : e.padded = true) : Sim e (61 :: cs) := by
+  have hnl : isNL 61 = false := by decide
+  rw [Sim, strip_cons_nonnl _ _ hnl, hp]
+  refine ⟨?_, ?_, ?_, ?_⟩
+  · intro out; rw [G_pad0 _ _ _ hp, dS_bad0 _ _ _ _ (sextet_61 _)]; rfl
+  · intro out a x _; rw [G_pad1 _ _ _ _ hp, dS_bad1 _ _ _ _ _ (sextet_61 _)]; rfl
+  · intro out a x b y ha hb
+    rw [dS_pad2]
+    match hd : dropNL cs with
+    | [] =>
+      rw [G_pad2_nil _ _ _ _ _ hp hd, strip_dropNL_nil _ hd]; simp
+    | d :: r =>
+      obtain ⟨_, hs⟩ := strip_dropNL_cons d r cs hd
+      rw [hs]
+      by_cases hd61 : d = 61
+      · subst hd61
+        rw [G_pad2_61 _ _ _ _ _ _ hp hd]
+        by_cases hr : B64.strip r = []
+        · rw [if_pos ((dropNL_isEmpty r).mpr hr), hr]
+          simp [ha, hb, emit, B64.bytes2]
+        · rw [if_neg (fun h => hr ((dropNL_isEmpty r).mp h))]
+          simp [hr]
+      · rw [G_pad2_other _ _ _ _ _ _ _ hp hd hd61]
+        simp [hd61]
+  · intro out a x b y c z ha hb hc
+    rw [dS_pad3 _ _ _ _ _ (sextet_some_ne hc).2.2, G_pad3 _ _ _ _ _ _ hp]
+    by_cases hr : B64.strip cs = []
+    · rw [if_pos ((dropNL_isEmpty cs).mpr hr), hr]
+      simp [ha, hb, hc, emit, B64.bytes3]
+    · rw [if_neg (fun h => hr ((dropNL_isEmpty cs).mp h))]
+      simp [hr]
+
+theorem sim_all (e : Enc) : ∀ s, Sim e s
+  | [] => sim_nil e
+  | c :: cs => by
+    have ih := sim_all e cs
+    by_cases hnl : isNL c = true
+    · exact sim_cons_nl e c cs ih hnl
+    · have hnl' : isNL c = false := by simpa using hnl
+      cases hv : B64.sextet e.isURL c with
+      | some v => exact sim_cons_some e c v cs ih hv
+      | none =>
+        by_cases h61 : c = 61 ∧ e.padded = true
+        · obtain ⟨rfl, hp⟩ := h61
+          exact sim_cons_pad e cs hp
+        · exact sim_cons_bad e c cs hv hnl' h61
 
 theorem goDecode_eq_spec (e : Enc) (s : Bytes) :
     goDecode e s = B64.decode e.isURL e.padded s := by
-  sorry
+  unfold goDecode B64.decode
+  rw [(sim_all e s).1 []]
+  cases B64.decodeStripped e.isURL e.padded (B64.strip s) <;> simp
+
+/-! ### structure of accepted texts -/
+
+theorem quad_induct {P : Bytes → Prop} (h0 : P []) (h1 : ∀ a, P [a]) (h2 : ∀ a b, P [a, b])
+    (h3 : ∀ a b c, P [a, b, c]) (h4 : ∀ a b c d r, P r → P (a :: b :: c :: d :: r)) : ∀ t, P t
+  | [] => h0
+  | [a] => h1 a
+  | [a, b] => h2 a b
+  | [a, b, c] => h3 a b c
+  | a :: b :: c :: d :: r => h4 a b c d r (quad_induct h0 h1 h2 h3 h4 r)
+
+theorem dS2_inv {u p : Bool} {a b : Nat} {bs : Bytes}
+    (h : B64.decodeStripped u p [a, b] = some bs) :
+    p = false ∧ ∃ x y, B64.sextet u a = some x ∧ B64.sextet u b = some y ∧ bs = B64.bytes2 x y := by
+  cases p
+  · refine ⟨rfl, ?_⟩
+    simp only [B64.decodeStripped] at h
+    cases ha : B64.sextet u a <;> cases hb : B64.sextet u b <;> simp_all
+  · simp [B64.decodeStripped] at h
+
+theorem dS3_inv {u p : Bool} {a b c : Nat} {bs : Bytes}
+    (h : B64.decodeStripped u p [a, b, c] = some bs) :
+    p = false ∧ ∃ x y z, B64.sextet u a = some x ∧ B64.sextet u b = some y ∧
+      B64.sextet u c = some z ∧ bs = B64.bytes3 x y z := by
+  cases p
+  · refine ⟨rfl, ?_⟩
+    simp only [B64.decodeStripped] at h
+    cases ha : B64.sextet u a <;> cases hb : B64.sextet u b <;> cases hc : B64.sextet u c <;> simp_all
+  · simp [B64.decodeStripped] at h
+
+theorem dS4_inv {u p : Bool} {a b c d : Nat} {r bs : Bytes}
+    (h : B64.decodeStripped u p (a :: b :: c :: d :: r) = some bs) :
+    (p = true ∧ r = [] ∧ c = 61 ∧ d = 61 ∧
+      ∃ x y, B64.sextet u a = some x ∧ B64.sextet u b = some y ∧ bs = B64.bytes2 x y) ∨
+    (p = true ∧ r = [] ∧ c ≠ 61 ∧ d = 61 ∧
+      ∃ x y z, B64.sextet u a = some x ∧ B64.sextet u b = some y ∧ B64.sextet u c = some z ∧
+        bs = B64.bytes3 x y z) ∨
+    (∃ x y z w r', B64.sextet u a = some x ∧ B64.sextet u b = some y ∧ B64.sextet u c = some z ∧
+        B64.sextet u d = some w ∧ B64.decodeStripped u p r = some r' ∧
+        bs = B64.bytes4 x y z w ++ r') := by
+  by_cases hp : p = true
+  · subst hp
+    by_cases hc : c = 61
+    · subst hc
+      rw [dS_pad2] at h
+      by_cases ht : d :: r = [61]
+      · rw [if_pos ht] at h
+        injection ht with hd hr
+        left
+        refine ⟨rfl, hr, rfl, hd, ?_⟩
+        cases ha : B64.sextet u a <;> cases hb : B64.sextet u b <;> simp_all
+      · rw [if_neg ht] at h; cases h
+    · by_cases hd : d = 61
+      · subst hd
+        rw [dS_pad3 _ _ _ _ _ hc] at h
+        by_cases hr : r = []
+        · rw [if_pos hr] at h
+          right; left
+          refine ⟨rfl, hr, hc, rfl, ?_⟩
+          cases ha : B64.sextet u a <;> cases hb : B64.sextet u b <;> cases hcc : B64.sextet u c <;>
+            simp_all
+        · rw [if_neg hr] at h; cases h
+      · right; right
+        simp only [B64.decodeStripped] at h
+        rw [if_neg (by intro hh; exact hd hh.2.2.2), if_neg (by intro hh; exact hd hh.2.2)] at h
+        cases ha : B64.sextet u a <;> cases hb : B64.sextet u b <;> cases hcc : B64.sextet u c <;>
+          cases hdd : B64.sextet u d <;> cases hrr : B64.decodeStripped u true r <;> simp_all
+  · have hp' : p = false := by simpa using hp
+    subst hp'
+    right; right
+    simp only [B64.decodeStripped] at h
+    rw [if_neg (by simp), if_neg (by simp)] at h
+    cases ha : B64.sextet u a <;> cases hb : B64.sextet u b <;> cases hcc : B64.sextet u c <;>
+      cases hdd : B64.sextet u d <;> cases hrr : B64.decodeStripped u false r <;> simp_all
+
+/-- F1: every character of an accepted text is in the alphabet, or is padding -/
+theorem accept_chars (u p : Bool) : ∀ (t bs : Bytes), B64.decodeStripped u p t = some bs →
+    ∀ c ∈ t, (∃ v, B64.sextet u c = some v) ∨ (c = 61 ∧ p = true) := by
+  intro t
+  induction t using quad_induct with
+  | h0 => intro bs _ c hc; cases hc
+  | h1 a => intro bs h; simp [B64.decodeStripped] at h
+  | h2 a b =>
+    intro bs h c hc
+    obtain ⟨_, x, y, ha, hb, _⟩ := dS2_inv h
+    simp only [List.mem_cons, List.not_mem_nil, or_false] at hc
+    rcases hc with rfl | rfl
+    · exact Or.inl ⟨x, ha⟩
+    · exact Or.inl ⟨y, hb⟩
+  | h3 a b c' =>
+    intro bs h c hc
+    obtain ⟨_, x, y, z, ha, hb, hc', _⟩ := dS3_inv h
+    simp only [List.mem_cons, List.not_mem_nil, or_false] at hc
+    rcases hc with rfl | rfl | rfl
+    · exact Or.inl ⟨x, ha⟩
+    · exact Or.inl ⟨y, hb⟩
+    · exact Or.inl ⟨z, hc'⟩
+  | h4 a b c' d r ih =>
+    intro bs h c hc
+    rcases dS4_inv h with ⟨hp, hr, rfl, rfl, x, y, ha, hb, _⟩ | ⟨hp, hr, _, rfl, x, y, z, ha, hb, hc', _⟩ |
+      ⟨x, y, z, w, r', ha, hb, hc', hd, hr, _⟩
+    · subst hr
+      simp only [List.mem_cons, List.not_mem_nil, or_false] at hc
+      rcases hc with rfl | rfl | rfl | rfl
+      · exact Or.inl ⟨x, ha⟩
+      · exact Or.inl ⟨y, hb⟩
+      · exact Or.inr ⟨rfl, hp⟩
+      · exact Or.inr ⟨rfl, hp⟩
+    · subst hr
+      simp only [List.mem_cons, List.not_mem_nil, or_false] at hc
+      rcases hc with rfl | rfl | rfl | rfl
+      · exact Or.inl ⟨x, ha⟩
+      · exact Or.inl ⟨y, hb⟩
+      · exact Or.inl ⟨z, hc'⟩
+      · exact Or.inr ⟨rfl, hp⟩
+    · simp only [List.mem_cons] at hc
+      rcases hc with rfl | rfl | rfl | rfl | hc
+      · exact Or.inl ⟨x, ha⟩
+      · exact Or.inl ⟨y, hb⟩
+      · exact Or.inl ⟨z, hc'⟩
+      · exact Or.inl ⟨w, hd⟩
+      · exact ih r' hr c hc
+
+/-- F2: length constraints of accepted texts -/
+theorem accept_len (u p : Bool) : ∀ (t bs : Bytes), B64.decodeStripped u p t = some bs →
+    (p = true → t.length % 4 = 0) ∧ (p = false → t.length % 4 ≠ 1) := by
+  intro t
+  induction t using quad_induct with
+  | h0 => intro bs _; simp
+  | h1 a => intro bs h; simp [B64.decodeStripped] at h
+  | h2 a b => intro bs h; obtain ⟨hp, _⟩ := dS2_inv h; subst hp; simp
+  | h3 a b c' => intro bs h; obtain ⟨hp, _⟩ := dS3_inv h; subst hp; simp
+  | h4 a b c' d r ih =>
+    intro bs h
+    rcases dS4_inv h with ⟨hp, hr, _⟩ | ⟨hp, hr, _⟩ | ⟨x, y, z, w, r', _, _, _, _, hr, _⟩
+    · subst hr; subst hp; simp
+    · subst hr; subst hp; simp
+    · have := ih r' hr
+      simp only [List.length_cons]
+      constructor
+      · intro hp; have := this.1 hp; omega
+      · intro hp; have := this.2 hp; omega
+
+/-- F3: an accepted non-empty text starts with an alphabet character -/
+theorem accept_head (u p : Bool) (a : Nat) (t bs : Bytes)
+    (h : B64.decodeStripped u p (a :: t) = some bs) : ∃ v, B64.sextet u a = some v := by
+  cases ha : B64.sextet u a with
+  | some v => exact ⟨v, rfl⟩
+  | none => rw [dS_bad0 _ _ _ _ ha] at h; cases h
+
+/-- D: a padded-accepted text without `=` is accepted unpadded, with the same bytes -/
+theorem pad_to_raw (u : Bool) : ∀ (t bs : Bytes), B64.decodeStripped u true t = some bs →
+    (∀ c ∈ t, c ≠ 61) → B64.decodeStripped u false t = some bs := by
+  intro t
+  induction t using quad_induct with
+  | h0 => intro bs h _; simpa [B64.decodeStripped] using h
+  | h1 a => intro bs h; simp [B64.decodeStripped] at h
+  | h2 a b => intro bs h; simp [B64.decodeStripped] at h
+  | h3 a b c' => intro bs h; simp [B64.decodeStripped] at h
+  | h4 a b c' d r ih =>
+    intro bs h hne
+    rcases dS4_inv h with ⟨_, _, _, hd, _⟩ | ⟨_, _, _, hd, _⟩ | ⟨x, y, z, w, r', ha, hb, hc', hd, hr, hbs⟩
+    · exact absurd hd (hne d (by simp))
+    · exact absurd hd (hne d (by simp))
+    · have := ih r' hr (fun c hc => hne c (by simp [hc]))
+      rw [dS_full _ _ _ _ _ _ _ _ _ _ _ ha hb hc' hd, this, hbs]; rfl
+
+/-- `decodeStripped` depends on the alphabet only through the characters of the text -/
+theorem dS_congr (u₁ u₂ p : Bool) : ∀ t : Bytes, (∀ c ∈ t, B64.sextet u₁ c = B64.sextet u₂ c) →
+    B64.decodeStripped u₁ p t = B64.decodeStripped u₂ p t := by
+  intro t
+  induction t using quad_induct with
+  | h0 => intro _; rfl
+  | h1 a => intro _; rfl
+  | h2 a b =>
+    intro h
+    simp only [B64.decodeStripped, h a (by simp), h b (by simp)]
+  | h3 a b c =>
+    intro h
+    simp only [B64.decodeStripped, h a (by simp), h b (by simp), h c (by simp)]
+  | h4 a b c d r ih =>
+    intro h
+    simp only [B64.decodeStripped, h a (by simp), h b (by simp), h c (by simp), h d (by simp),
+      ih (fun c hc => h c (by simp [hc]))]
+
+/-! ### the alphabets agree on common characters -/
+
+theorem dm_agree_small : ∀ u₁ u₂, (List.range 128).all (fun c =>
+    match dm u₁ c, dm u₂ c with
+    | some x, some y => x == y
+    | _, _ => true) = true := by decide
+
+theorem sextet_agree {u₁ u₂ : Bool} {c x y : Nat} (h₁ : B64.sextet u₁ c = some x)
+    (h₂ : B64.sextet u₂ c = some y) : x = y := by
+  by_cases hc : c < 128
+  · have := all_range (dm_agree_small u₁ u₂) c hc
+    rw [sextet_eq] at h₁ h₂
+    simp only [h₁, h₂] at this
+    exact eq_of_beq this
+  · rw [sextet_big _ _ (by omega)] at h₁; cases h₁
+
+theorem dS_agree_same_pad (u₁ u₂ p : Bool) (t b₁ b₂ : Bytes)
+    (h₁ : B64.decodeStripped u₁ p t = some b₁) (h₂ : B64.decodeStripped u₂ p t = some b₂) :
+    b₁ = b₂ := by
+  have hc : ∀ c ∈ t, B64.sextet u₁ c = B64.sextet u₂ c := by
+    intro c hc
+    rcases accept_chars u₁ p t b₁ h₁ c hc with ⟨x, hx⟩ | ⟨rfl, _⟩
+    · rcases accept_chars u₂ p t b₂ h₂ c hc with ⟨y, hy⟩ | ⟨rfl, _⟩
+      · rw [hx, hy, sextet_agree hx hy]
+      · rw [sextet_61] at hx; cases hx
+    · rw [sextet_61, sextet_61]
+  rw [dS_congr u₁ u₂ p t hc, h₂] at h₁
+  exact (Option.some.inj h₁).symm
+
+theorem dS_agree_pad_raw (u₁ u₂ : Bool) (t b₁ b₂ : Bytes)
+    (h₁ : B64.decodeStripped u₁ true t = some b₁) (h₂ : B64.decodeStripped u₂ false t = some b₂) :
+    b₁ = b₂ := by
+  have hne : ∀ c ∈ t, c ≠ 61 := by
+    intro c hc
+    rcases accept_chars u₂ false t b₂ h₂ c hc with ⟨y, hy⟩ | ⟨_, h⟩
+    · exact (sextet_some_ne hy).2.2
+    · cases h
+  exact dS_agree_same_pad u₁ u₂ false t b₁ b₂ (pad_to_raw u₁ t b₁ h₁ hne) h₂
 
 theorem decoders_agree (e₁ e₂ : Enc) (s b₁ b₂ : Bytes)
     (h₁ : B64.decode e₁.isURL e₁.padded s = some b₁)
     (h₂ : B64.decode e₂.isURL e₂.padded s = some b₂) : b₁ = b₂ := by
-  sorry
+  unfold B64.decode at h₁ h₂
+  cases hp₁ : e₁.padded <;> cases hp₂ : e₂.padded <;> rw [hp₁] at h₁ <;> rw [hp₂] at h₂
+  · exact dS_agree_same_pad _ _ _ _ _ _ h₁ h₂
+  · exact (dS_agree_pad_raw _ _ _ _ _ h₂ h₁).symm
+  · exact dS_agree_pad_raw _ _ _ _ _ h₁ h₂
+  · exact dS_agree_same_pad _ _ _ _ _ _ h₁ h₂
+
+/-! ### character classes -/
+
+theorem tableClass_big (c : Nat) (h : 256 ≤ c) : tableClass c = 255 := by
+  unfold tableClass
+  rw [List.getD_eq_getElem?_getD, List.getElem?_eq_none (by rw [table_len]; omega)]
+  rfl
+
+/-- Boolean summary of the facts relating the table to the alphabets -/
+def classFacts (c : Nat) : Bool :=
+  ((tableClass c == 0) == (c == 10 || c == 13)) &&
+  ((tableClass c == 8) == (c == 61)) &&
+  (!(B64.sextet false c).isSome || tableClass c == 1 || tableClass c == 2) &&
+  (!(B64.sextet true c).isSome || tableClass c == 1 || tableClass c == 4) &&
+  (!(tableClass c == 1) || B64.sextet false c == B64.sextet true c)
+
+set_option maxRecDepth 100000 in
+theorem classFacts_small : (List.range 256).all classFacts = true := by decide
+
+theorem classFacts_all (c : Nat) : classFacts c = true := by
+  by_cases h : c < 256
+  · exact all_range classFacts_small c h
+  · unfold classFacts
+    rw [tableClass_big c (by omega), sextet_big _ c (by omega), sextet_big _ c (by omega)]
+    have h1 : (c == 10) = false := by simp; omega
+    have h2 : (c == 13) = false := by simp; omega
+    have h3 : (c == 61) = false := by simp; omega
+    rw [h1, h2, h3]; rfl
+
+theorem class0_iff (c : Nat) : tableClass c = 0 ↔ (c = 10 ∨ c = 13) := by
+  have := classFacts_all c
+  simp only [classFacts, Bool.and_eq_true] at this
+  have h := this.1.1.1.1
+  simp only [beq_iff_eq] at h
+  constructor
+  · intro h0; rw [h0] at h; simpa using h.symm
+  · intro hc
+    have : (c == 10 || c == 13) = true := by simpa using hc
+    rw [this] at h; simpa using h
+
+theorem class8_iff (c : Nat) : tableClass c = 8 ↔ c = 61 := by
+  have := classFacts_all c
+  simp only [classFacts, Bool.and_eq_true] at this
+  have h := this.1.1.1.2
+  simp only [beq_iff_eq] at h
+  constructor
+  · intro h0; rw [h0] at h; simpa using h.symm
+  · intro hc
+    have : (c == 61) = true := by simpa using hc
+    rw [this] at h; simpa using h
+
+theorem class_std {c v : Nat} (hv : B64.sextet false c = some v) :
+    tableClass c = 1 ∨ tableClass c = 2 := by
+  have := classFacts_all c
+  simp only [classFacts, Bool.and_eq_true] at this
+  have h := this.1.1.2
+  rw [hv] at h
+  simpa using h
+
+theorem class_url {c v : Nat} (hv : B64.sextet true c = some v) :
+    tableClass c = 1 ∨ tableClass c = 4 := by
+  have := classFacts_all c
+  simp only [classFacts, Bool.and_eq_true] at this
+  have h := this.1.2
+  rw [hv] at h
+  simpa using h
+
+theorem class1_sextet {c : Nat} (h1 : tableClass c = 1) : B64.sextet false c = B64.sextet true c := by
+  have := classFacts_all c
+  simp only [classFacts, Bool.and_eq_true] at this
+  have h := this.2
+  rw [h1] at h
+  simpa using h
+
+/-! ### the classifier loop -/
+
+def orCls : Bytes → Nat
+  | [] => 0
+  | c :: cs => tableClass c ||| orCls cs
+
+theorem strip_length_cons (c : Nat) (cs : Bytes) :
+    (B64.strip (c :: cs)).length =
+      if tableClass c ≠ 0 then (B64.strip cs).length + 1 else (B64.strip cs).length := by
+  by_cases h : isNL c = true
+  · rw [strip_cons_nl _ _ h, if_neg (by rw [isNL_iff] at h; simpa using (class0_iff c).mpr h)]
+  · have h' : isNL c = false := by simpa using h
+    rw [strip_cons_nonnl _ _ h', if_pos (by rw [isNL_iff] at h; rw [Ne, class0_iff]; exact h)]
+    rfl
+
+theorem scan_spec : ∀ (s : Bytes) (st : Scan), (∀ c ∈ s, tableClass c ≠ 255) →
+    scan s st = some { b := st.b ||| orCls s, dataLen := st.dataLen + (B64.strip s).length }
+  | [], st, _ => by simp [scan, orCls, B64.strip]
+  | c :: cs, st, h => by
+    have hc : tableClass c ≠ 255 := h c (by simp)
+    simp only [scan, if_neg hc]
+    rw [scan_spec cs _ (fun x hx => h x (by simp [hx]))]
+    simp only [orCls, Nat.or_assoc, strip_length_cons]
+    congr 2
+    by_cases h0 : tableClass c = 0 <;> simp [h0] <;> omega
+
+def bits (h1 h2 h4 h8 : Bool) : Nat :=
+  (if h1 then 1 else 0) + (if h2 then 2 else 0) + (if h4 then 4 else 0) + (if h8 then 8 else 0)
+
+def hasCls (k : Nat) (s : Bytes) : Bool := s.any (fun c => tableClass c == k)
+
+theorem hasCls_cons (k c : Nat) (cs : Bytes) :
+    hasCls k (c :: cs) = (tableClass c == k || hasCls k cs) := by
+  simp [hasCls]
+
+theorem hasCls_true {k : Nat} {s : Bytes} (h : hasCls k s = true) : ∃ c ∈ s, tableClass c = k := by
+  simpa [hasCls] using h
+
+theorem hasCls_false {k : Nat} {s : Bytes} (h : hasCls k s = false) : ∀ c ∈ s, tableClass c ≠ k := by
+  simpa [hasCls] using h
+
+theorem lor_bits (w : Nat) (hw : w = 0 ∨ w = 1 ∨ w = 2 ∨ w = 4 ∨ w = 8) (h1 h2 h4 h8 : Bool) :
+    w ||| bits h1 h2 h4 h8 = bits (w == 1 || h1) (w == 2 || h2) (w == 4 || h4) (w == 8 || h8) := by
+  rcases hw with rfl | rfl | rfl | rfl | rfl <;> cases h1 <;> cases h2 <;> cases h4 <;> cases h8 <;> rfl
+
+theorem orCls_bits : ∀ s : Bytes,
+    (∀ c ∈ s, tableClass c = 0 ∨ tableClass c = 1 ∨ tableClass c = 2 ∨ tableClass c = 4 ∨
+      tableClass c = 8) →
+    orCls s = bits (hasCls 1 s) (hasCls 2 s) (hasCls 4 s) (hasCls 8 s)
+  | [], _ => rfl
+  | c :: cs, h => by
+    rw [orCls, orCls_bits cs (fun x hx => h x (by simp [hx])), lor_bits _ (h c (by simp))]
+    simp only [hasCls_cons]
+
+def mkEnc : Bool → Bool → Enc
+  | false, false => .rawStd
+  | true, false => .rawURL
+  | false, true => .std
+  | true, true => .url
+
+theorem mkEnc_isURL (u p : Bool) : (mkEnc u p).isURL = u := by cases u <;> cases p <;> rfl
+theorem mkEnc_padded (u p : Bool) : (mkEnc u p).padded = p := by cases u <;> cases p <;> rfl
+theorem mkEnc_eta (e : Enc) : mkEnc e.isURL e.padded = e := by cases e <;> rfl
+
+theorem which_of_bits (s : Bytes) (h1 h2 h4 h8 : Bool) (n : Nat)
+    (hscan : scan s {} = some { b := bits h1 h2 h4 h8, dataLen := n })
+    (hx : ¬ (h2 = true ∧ h4 = true))
+    (hy : h8 = true → (h1 = true ∨ h2 = true ∨ h4 = true))
+    (hl8 : h8 = true → n % 4 = 0) (hl0 : h8 = false → n % 4 ≠ 1) :
+    whichBase64 s = some (mkEnc h4 h8) := by
+  unfold whichBase64
+  rw [hscan]
+  cases h1 <;> cases h2 <;> cases h4 <;> cases h8 <;> simp_all [bits, mkEnc]
+
+/-! ### `accept_iff` -/
+
+theorem decodeAny_ok_iff (s b : Bytes) :
+    decodeAny s = .ok b ↔ ∃ e, whichBase64 s = some e ∧ goDecode e s = some b := by
+  unfold decodeAny
+  generalize Gen.b64PanicOnDecodeError = flag
+  cases hw : whichBase64 s with
+  | none => simp
+  | some e =>
+    cases hg : goDecode e s with
+    | none => cases flag <;> simp [hg]
+    | some b' =>
+      simp only [hg]
+      constructor
+      · intro h; injection h with h; exact ⟨e, rfl, by rw [hg, h]⟩
+      · rintro ⟨e', he, hb⟩
+        injection he with he; subst he; rw [hg] at hb; injection hb with hb; rw [hb]
+
+theorem mem_strip (c : Nat) (s : Bytes) : c ∈ B64.strip s ↔ c ∈ s ∧ c ≠ 10 ∧ c ≠ 13 := by
+  simp [B64.strip, List.mem_filter]
+
+theorem hasCls_intro {k c : Nat} {s : Bytes} (hc : c ∈ s) (hk : tableClass c = k) :
+    hasCls k s = true := by
+  simp only [hasCls, List.any_eq_true]
+  exact ⟨c, hc, by simp [hk]⟩
+
+/-- the class of a character of an accepted text -/
+theorem class_of_accepted {u p : Bool} {t bs : Bytes} (hacc : B64.decodeStripped u p t = some bs)
+    {c : Nat} (hc : c ∈ t) :
+    (tableClass c = 1 ∨ (tableClass c = 2 ∧ u = false) ∨ (tableClass c = 4 ∧ u = true)) ∨
+      (tableClass c = 8 ∧ c = 61 ∧ p = true) := by
+  rcases accept_chars u p t bs hacc c hc with ⟨v, hv⟩ | ⟨rfl, hp⟩
+  · left
+    cases u
+    · rcases class_std hv with h | h
+      · exact Or.inl h
+      · exact Or.inr (Or.inl ⟨h, rfl⟩)
+    · rcases class_url hv with h | h
+      · exact Or.inl h
+      · exact Or.inr (Or.inr ⟨h, rfl⟩)
+  · exact Or.inr ⟨(class8_iff 61).mpr rfl, rfl, hp⟩
+
+theorem accept_sel (u p : Bool) (s b : Bytes)
+    (hacc : B64.decodeStripped u p (B64.strip s) = some b) :
+    ∃ e, whichBase64 s = some e ∧ B64.decodeStripped e.isURL e.padded (B64.strip s) = some b := by
+  -- classes of all characters
+  have hin : ∀ c ∈ s, tableClass c ≠ 0 → c ∈ B64.strip s := by
+    intro c hc h0
+    rw [mem_strip]
+    rw [Ne, class0_iff] at h0
+    exact ⟨hc, fun h => h0 (Or.inl h), fun h => h0 (Or.inr h)⟩
+  have hcls : ∀ c ∈ s, tableClass c = 0 ∨ tableClass c = 1 ∨ tableClass c = 2 ∨ tableClass c = 4 ∨
+      tableClass c = 8 := by
+    intro c hc
+    by_cases h0 : tableClass c = 0
+    · exact Or.inl h0
+    · rcases class_of_accepted hacc (hin c hc h0) with (h | h | h) | h
+      · exact Or.inr (Or.inl h)
+      · exact Or.inr (Or.inr (Or.inl h.1))
+      · exact Or.inr (Or.inr (Or.inr (Or.inl h.1)))
+      · exact Or.inr (Or.inr (Or.inr (Or.inr h.1)))
+  have hscan := scan_spec s {} (fun c hc => by rcases hcls c hc with h | h | h | h | h <;> omega)
+  rw [orCls_bits s hcls] at hscan
+  simp only [Nat.zero_or, Nat.zero_add] at hscan
+  -- consequences of the Boolean flags
+  have A2 : hasCls 2 s = true → u = false := by
+    intro h
+    obtain ⟨c, hc, hk⟩ := hasCls_true h
+    rcases class_of_accepted hacc (hin c hc (by omega)) with (h | h | h) | h
+    · omega
+    · exact h.2
+    · omega
+    · omega
+  have A4 : hasCls 4 s = true → u = true := by
+    intro h
+    obtain ⟨c, hc, hk⟩ := hasCls_true h
+    rcases class_of_accepted hacc (hin c hc (by omega)) with (h | h | h) | h
+    · omega
+    · omega
+    · exact h.2
+    · omega
+  have A8 : hasCls 8 s = true → p = true ∧ B64.strip s ≠ [] := by
+    intro h
+    obtain ⟨c, hc, hk⟩ := hasCls_true h
+    have hm := hin c hc (by omega)
+    refine ⟨?_, fun hnil => by rw [hnil] at hm; cases hm⟩
+    rcases class_of_accepted hacc hm with (h | h | h) | h
+    · omega
+    · omega
+    · omega
+    · exact h.2.2
+  have A8' : hasCls 8 s = false → ∀ c ∈ B64.strip s, c ≠ 61 := by
+    intro h c hc h61
+    exact hasCls_false h c ((mem_strip c s).mp hc).1 ((class8_iff c).mpr h61)
+  have Ahead : hasCls 8 s = true →
+      (hasCls 1 s = true ∨ hasCls 2 s = true ∨ hasCls 4 s = true) := by
+    intro h
+    obtain ⟨_, hne⟩ := A8 h
+    match ht : B64.strip s with
+    | [] => exact absurd ht hne
+    | a :: t' =>
+      have ha : a ∈ B64.strip s := by rw [ht]; simp
+      have has : a ∈ s := ((mem_strip a s).mp ha).1
+      rw [ht] at hacc
+      obtain ⟨v, hv⟩ := accept_head u p a t' b hacc
+      cases u
+      · rcases class_std hv with h | h
+        · exact Or.inl (hasCls_intro has h)
+        · exact Or.inr (Or.inl (hasCls_intro has h))
+      · rcases class_url hv with h | h
+        · exact Or.inl (hasCls_intro has h)
+        · exact Or.inr (Or.inr (hasCls_intro has h))
+  -- adjust the padding flag
+  have hP : B64.decodeStripped u (hasCls 8 s) (B64.strip s) = some b := by
+    cases h8 : hasCls 8 s with
+    | true => rw [← (A8 h8).1]; exact hacc
+    | false =>
+      cases p with
+      | false => exact hacc
+      | true => exact pad_to_raw u _ b hacc (A8' h8)
+  -- adjust the alphabet flag
+  have hU : B64.decodeStripped (hasCls 4 s) (hasCls 8 s) (B64.strip s) = some b := by
+    cases h4 : hasCls 4 s with
+    | true => rw [← A4 h4]; exact hP
+    | false =>
+      cases u with
+      | false => exact hP
+      | true =>
+        rw [← hP]
+        apply dS_congr
+        intro c hc
+        have hcs := (mem_strip c s).mp hc
+        rcases class_of_accepted hacc hc with (h | h | h) | h
+        · exact class1_sextet h
+        · cases h.2
+        · exact absurd h.1 (hasCls_false h4 c hcs.1)
+        · rw [h.2.1, sextet_61, sextet_61]
+  refine ⟨mkEnc (hasCls 4 s) (hasCls 8 s), ?_, by rw [mkEnc_isURL, mkEnc_padded]; exact hU⟩
+  apply which_of_bits s _ _ _ _ _ hscan
+  · intro h; have := A2 h.1; have := A4 h.2; simp_all
+  · exact Ahead
+  · intro h8
+    rw [h8] at hP
+    exact (accept_len u true _ b hP).1 rfl
+  · intro h8
+    rw [h8] at hP
+    exact (accept_len u false _ b hP).2 rfl
 
 theorem accept_iff (s b : Bytes) :
     decodeAny s = .ok b ↔ ∃ e ∈ Enc.all, B64.decode e.isURL e.padded s = some b := by
-  sorry
+  rw [decodeAny_ok_iff]
+  constructor
+  · rintro ⟨e, _, hg⟩
+    refine ⟨e, by cases e <;> simp [Enc.all], ?_⟩
+    rw [← goDecode_eq_spec]; exact hg
+  · rintro ⟨e₀, _, h⟩
+    obtain ⟨e, hw, hd⟩ := accept_sel e₀.isURL e₀.padded s b h
+    exact ⟨e, hw, by rw [goDecode_eq_spec]; exact hd⟩
+
+/-! ### round trip -/
+
+theorem charOf_small : ∀ u, (List.range 64).all (fun v => B64.sextet u (B64.charOf u v) == some v) = true := by
+  decide
+
+theorem sextet_charOf (u : Bool) (v : Nat) (h : v < 64) : B64.sextet u (B64.charOf u v) = some v :=
+  eq_of_beq (all_range (charOf_small u) v h)
+
+theorem strip_append (a b : Bytes) : B64.strip (a ++ b) = B64.strip a ++ B64.strip b := by
+  simp [B64.strip, List.filter_append]
+
+theorem strip_self (t : Bytes) (h : ∀ c ∈ t, c ≠ 10 ∧ c ≠ 13) : B64.strip t = t := by
+  unfold B64.strip
+  rw [List.filter_eq_self]
+  intro c hc
+  simpa using h c hc
+
+theorem strip_wrapAux (w : Nat) (eol : Bytes) (heol : B64.strip eol = []) :
+    ∀ (t : Bytes) (k : Nat), (∀ c ∈ t, c ≠ 10 ∧ c ≠ 13) → B64.strip (B64.wrapAux w eol k t) = t
+  | [], _, _ => rfl
+  | c :: cs, k, h => by
+    have hc := h c (by simp)
+    have hnl : isNL c = false := by
+      cases hh : isNL c with
+      | false => rfl
+      | true => rw [isNL_iff] at hh; omega
+    have hcs : ∀ x ∈ cs, x ≠ 10 ∧ x ≠ 13 := fun x hx => h x (by simp [hx])
+    unfold B64.wrapAux
+    by_cases hk : k + 1 = w
+    · rw [if_pos hk, strip_cons_nonnl _ _ hnl, strip_append, heol, List.nil_append,
+        strip_wrapAux w eol heol cs 0 hcs]
+    · rw [if_neg hk, strip_cons_nonnl _ _ hnl, strip_wrapAux w eol heol cs (k + 1) hcs]
+
+theorem strip_wrap (w : Nat) (eol t : Bytes) (heol : eol = [10] ∨ eol = [13, 10])
+    (h : ∀ c ∈ t, c ≠ 10 ∧ c ≠ 13) : B64.strip (B64.wrap w eol t) = t := by
+  unfold B64.wrap
+  by_cases hw : w = 0
+  · rw [if_pos hw]; exact strip_self t h
+  · rw [if_neg hw]
+    apply strip_wrapAux _ _ _ _ _ h
+    rcases heol with rfl | rfl <;> rfl
+
+theorem tri_induct {P : Bytes → Prop} (h0 : P []) (h1 : ∀ a, P [a]) (h2 : ∀ a b, P [a, b])
+    (h3 : ∀ a b c r, P r → P (a :: b :: c :: r)) : ∀ t, P t
+  | [] => h0
+  | [a] => h1 a
+  | [a, b] => h2 a b
+  | a :: b :: c :: r => h3 a b c r (tri_induct h0 h1 h2 h3 r)
+
+theorem dS_encode (u p : Bool) : ∀ b : Bytes, b.Valid →
+    B64.decodeStripped u p (B64.encode u p b) = some b := by
+  intro b
+  induction b using tri_induct with
+  | h0 => intro _; rfl
+  | h1 x =>
+    intro hv
+    have hx : x < 256 := hv x (by simp)
+    have s1 := sextet_charOf u (x / 4) (by omega)
+    have s2 := sextet_charOf u (x % 4 * 16) (by omega)
+    have hb : B64.bytes2 (x / 4) (x % 4 * 16) = [x] := by
+      simp only [B64.bytes2, List.cons.injEq, and_true]; omega
+    cases p
+    · simp [B64.encode, B64.decodeStripped, s1, s2, hb]
+    · simp only [B64.encode, if_true, List.cons_append, List.nil_append]
+      rw [dS_pad2, if_pos rfl, s1, s2]
+      simp only [hb]
+  | h2 x y =>
+    intro hv
+    have hx : x < 256 := hv x (by simp)
+    have hy : y < 256 := hv y (by simp)
+    have s1 := sextet_charOf u (x / 4) (by omega)
+    have s2 := sextet_charOf u (x % 4 * 16 + y / 16) (by omega)
+    have s3 := sextet_charOf u (y % 16 * 4) (by omega)
+    have hb : B64.bytes3 (x / 4) (x % 4 * 16 + y / 16) (y % 16 * 4) = [x, y] := by
+      simp only [B64.bytes3, List.cons.injEq, and_true]; omega
+    cases p
+    · simp [B64.encode, B64.decodeStripped, s1, s2, s3, hb]
+    · simp only [B64.encode, if_true, List.cons_append, List.nil_append]
+      rw [dS_pad3 _ _ _ _ _ (sextet_some_ne s3).2.2, if_pos rfl, s1, s2, s3]
+      simp only [hb]
+  | h3 x y z r ih =>
+    intro hv
+    have hx : x < 256 := hv x (by simp)
+    have hy : y < 256 := hv y (by simp)
+    have hz : z < 256 := hv z (by simp)
+    have s1 := sextet_charOf u (x / 4) (by omega)
+    have s2 := sextet_charOf u (x % 4 * 16 + y / 16) (by omega)
+    have s3 := sextet_charOf u (y % 16 * 4 + z / 64) (by omega)
+    have s4 := sextet_charOf u (z % 64) (by omega)
+    have hb : B64.bytes4 (x / 4) (x % 4 * 16 + y / 16) (y % 16 * 4 + z / 64) (z % 64) = [x, y, z] := by
+      simp only [B64.bytes4, List.cons.injEq, and_true]; omega
+    simp only [B64.encode, List.cons_append, List.nil_append]
+    rw [dS_full _ _ _ _ _ _ _ _ _ _ _ s1 s2 s3 s4, ih (fun c hc => hv c (by simp [hc])), hb]
+    rfl
 
 theorem roundtrip (b : Bytes) (hb : b.Valid) (url padded : Bool) (w : Nat) (eol : Bytes)
     (heol : eol = [10] ∨ eol = [13, 10]) :
     decodeAny (B64.wrap w eol (B64.encode url padded b)) = .ok b := by
-  sorry
+  rw [accept_iff]
+  have henc := dS_encode url padded b hb
+  have hnl : ∀ c ∈ B64.encode url padded b, c ≠ 10 ∧ c ≠ 13 := by
+    intro c hc
+    rcases accept_chars url padded _ b henc c hc with ⟨v, hv⟩ | ⟨rfl, _⟩
+    · have := sextet_some_ne hv; exact ⟨this.1, this.2.1⟩
+    · decide
+  refine ⟨mkEnc url padded, by cases url <;> cases padded <;> simp [mkEnc, Enc.all], ?_⟩
+  rw [mkEnc_isURL, mkEnc_padded]
+  unfold B64.decode
+  rw [strip_wrap w eol _ heol hnl]
+  exact henc
 
 end WhatIs.Lemmas.Base64
